@@ -70,6 +70,14 @@ pub fn request(dir: &str, step: &Value) -> Value {
     json!({"jsonrpc": "2.0", "id": id, "method": method, "params": params})
 }
 
+/// `contentChanges` of a didChange: one full-text entry, or several when the step carries a list of texts
+pub fn content_changes(v: &Value) -> Value {
+    match v.as_array() {
+        Some(a) => Value::Array(a.iter().map(|t| json!({"text": t})).collect()),
+        None => json!([{"text": v}]),
+    }
+}
+
 pub fn run(rest: &str) -> String {
     let spec: Value = match serde_json::from_str(rest) {
         Ok(v) => v,
@@ -163,7 +171,7 @@ pub fn run(rest: &str) -> String {
                         *v
                     };
                     send(&mut w, json!({"jsonrpc":"2.0","method":"textDocument/didChange","params":{"textDocument":{
-                        "uri": uri(&dir2, step[1].as_str().unwrap_or("")), "version":version},"contentChanges":[{"text": step[2]}]}})).await;
+                        "uri": uri(&dir2, step[1].as_str().unwrap_or("")), "version":version},"contentChanges":content_changes(&step[2])}})).await;
                 }
                 "req" => {
                     expected.push(step[1].clone());
